@@ -53,7 +53,26 @@ def repository_level(rnd):
                              'first_cuts': got[:4], 'key_cuts': want[:4]})
         return got
 
+    async def shared_user_cuts(root):
+        # a shared-key user (key written by add-key, opened by a fresh object from the key FILE contents) cuts exactly like the owner
+        r = Repository(Local(root / 'fam'), concurrent=2, quiet=True, cache_directory=None)
+        with lib.quiet():
+            res = await r.init(password=b'pw', settings={'encryption': {'kdf': dict(lib.FAST_KDF)}, 'chunking': {'min_length': M_MIN, 'max_length': M_MAX}})
+            k1 = r.serialize(res.key)
+            k2 = r.serialize((await r.add_key(password=b'pw2', shared=True, settings={'encryption': {'kdf': dict(lib.FAST_KDF)}})).new_key)
+        await r.close()
+        out = []
+        for pw, kb in ((b'pw', k1), (b'pw2', k2)):
+            u = Repository(Local(root / 'fam'), concurrent=2, quiet=True, cache_directory=None)
+            with lib.quiet():
+                await u.unlock(password=pw, key=kb)
+                out.append([len(c) for c in u.props.chunkify(iter([data]))])
+            await u.close()
+        if out[0] != out[1]:
+            problems.append({'problem': 'a shared-key user cuts the same data differently from the owner of the family', 'owner_first': out[0][:4], 'shared_first': out[1][:4]})
+
     with lib.scratch('vf_c11_') as root:
+        asyncio.run(shared_user_cuts(root))
         a = asyncio.run(lengths(root, True, 'a'))
         b = asyncio.run(lengths(root, True, 'b'))
         c = asyncio.run(lengths(root, False, 'plain'))
